@@ -351,7 +351,8 @@ SAMPLERS = [
     ("zeroright", "plate_carree_zeroright_sampler", False),
     ("planet", "plate_carree_planet_sampler", False),
     ("zeroleft", "plate_carree_planet_zeroleft_sampler", False),
-    ("galactic", "plate_carree_galactic_sampler", True),
+    ("galactic", "plate_carree_galactic_sampler", ("gal", "Galactic", "l", "b")),
+    ("ecliptic", "plate_carree_ecliptic_sampler", ("ecl", "Ecliptic", "lon", "lat")),
 ]
 
 
@@ -391,8 +392,11 @@ def gen_samplers():
         body = list(inner.body)
         rot = False
         if rotated:
+            var, frame, la, lb = rotated
             a, b = ast.unparse(body[0]), ast.unparse(body[1])
-            if ("transform_to(Galactic)" not in a and "transform_to(Galactic())" not in a) or b not in ("(lon, lat) = (gal.l.rad, gal.b.rad)", "lon, lat = (gal.l.rad, gal.b.rad)"):
+            a_ok = a in (f"{var} = ICRS(lon * u.rad, lat * u.rad).transform_to({frame})", f"{var} = ICRS(lon * u.rad, lat * u.rad).transform_to({frame}())")
+            b_ok = b in (f"(lon, lat) = ({var}.{la}.rad, {var}.{lb}.rad)", f"lon, lat = ({var}.{la}.rad, {var}.{lb}.rad)")
+            if not (a_ok and b_ok):
                 raise ExtractError(f"{fname}: rotation prologue changed: {a} / {b}")
             body = body[2:]
             rot = True
@@ -409,7 +413,7 @@ def gen_samplers():
             raise ExtractError(f"{fname}: unexpected statement {ast.unparse(s)[:60]}")
         if tr.ty.get("ix") != "Int" or tr.ty.get("iy") != "Int":
             raise ExtractError(f"{fname}: indices are not rounded to integers")
-        text = f"/-- `{fname}`: `(iy, ix)` used to index the map" + (" (after the ICRS→Galactic rotation, which is applied to `lon`, `lat` first)" if rot else "") + " -/\n"
+        text = f"/-- `{fname}`: `(iy, ix)` used to index the map" + (f" (after the ICRS→{rotated[1]} rotation, which is applied to `lon`, `lat` first)" if rot else "") + " -/\n"
         text += f"def {short} (nx ny : Int) (lon lat : Rat) : Int × Int :=\n"
         for (n, t, v) in lets:
             text += f"  let {n} : {t} := {v}\n"
